@@ -90,6 +90,28 @@ def attrOrder (d : Dict) (n : Nat) : List Nat := attrOrderAux d (d.length + 1) [
 def attrOwner (d : Dict) (over a : Nat) : Option Nat :=
   (over :: supWalk d over).find? (fun e => (attrsOf d e).any (fun p => p.1 == a))
 
+/-- `EntityDescriptor::InitIAttrs` on the inverse attributes of one entity, in declaration order: each is linked to the entity that
+    declares the attribute it inverts (`attrOwner`).  `perInverse` (regenerated from the loop's shape): every inverse attribute is
+    linked on its own; in the other shape the loop is left (`return`) after the first one whose inverted attribute was found in a
+    SUPERTYPE of the inverted entity, and the siblings declared after it keep a null `_inverted_attr` -/
+def initIAttrsWith (perInverse : Bool) (d : Dict) : List InvDecl → List (InvDecl × Option Nat)
+  | [] => []
+  | iv :: t =>
+    let own := (attrsOf d iv.over).any (fun p => p.1 == iv.attrName)
+    if own || perInverse then (iv, attrOwner d iv.over iv.attrName) :: initIAttrsWith perInverse d t
+    else (iv, attrOwner d iv.over iv.attrName) :: t.map (fun j => (j, none))
+
+def initIAttrs (d : Dict) (n : Nat) : List (InvDecl × Option Nat) := initIAttrsWith initIAttrsPerInverse d (invsOf d n)
+
+/-- the entity (the instance's own or a supertype) that declares inverse attribute `iv` -/
+def declarerOf (d : Dict) (k : Nat) (iv : InvDecl) : Option Nat := (k :: supWalk d k).find? (fun e => (invsOf d e).contains iv)
+
+/-- `ia->inverted_attr_()` as `InitIAttrs` left it: the entity declaring the inverted attribute, `none` = null descriptor -/
+def linkedOwner (d : Dict) (k : Nat) (iv : InvDecl) : Option Nat :=
+  match declarerOf d k iv with
+  | some e => ((initIAttrs d e).find? (fun p => p.1 == iv)).bind (·.2)
+  | none => none
+
 /-- an instance of the population as it is in the file: keyword (`none` for an external mapping, which the lazy index
     files under the empty keyword) and, per attribute of `instAttrs`, the ids mentioned -/
 structure PInst where
@@ -116,13 +138,15 @@ def mkInst (d : Dict) (p : PInst) : Inst :=
     let layout := (attrOrder d k).flatMap (fun e => (attrsOf d e).map (fun q => (e, q.1, q.2)))
     { id := p.id, types := typesOf d k, attrs := zipAttrs (redeclOf d k) layout p.vals }
 
-def mkIA (d : Dict) (iv : InvDecl) : InvAttr :=
-  { key := iv.key, aggr := iv.aggr, over := iv.over, attrName := iv.attrName,
-    attrOwner := (attrOwner d iv.over iv.attrName).getD iv.over }
+def mkIA (iv : InvDecl) (owner : Nat) : InvAttr :=
+  { key := iv.key, aggr := iv.aggr, over := iv.over, attrName := iv.attrName, attrOwner := owner }
 
-/-- inverse attribute `iv` of instance `x` (keyword `k`), on dictionary + population; `crash` also when `iv` has no slot -/
+/-- inverse attribute `iv` of instance `x` (keyword `k`), on dictionary + population; `crash` when `iv` has no slot; empty when
+    `InitIAttrs` left the inverse attribute without its inverted attribute -/
 def resolveD (d : Dict) (pop : List PInst) (x k : Nat) (iv : InvDecl) : Outcome (List Nat) :=
   if !(slots d k).contains iv then .crash
-  else resolve fromSource (pop.map (mkInst d)) x (mkIA d iv)
+  else match linkedOwner d k iv with
+    | some o => resolve fromSource (pop.map (mkInst d)) x (mkIA iv o)
+    | none => .ok []      -- null `_inverted_attr`: `attrIndex( referrer, 0 )` is -1 for every candidate
 
 end StepModel.LazyRefs
